@@ -102,7 +102,8 @@ def gen_cat_data(rng, n_series=None, big=False):
     series = []
     for j in range(ns):
         name = rng.choice(["S%d" % j, "s&%d" % j, "Serie %d" % j])
-        vals = gen_values(rng, n)
+        # the number of values need not equal the number of (leaf) categories
+        vals = gen_values(rng, rng.choice([n, n, n, n, max(0, n - 1), n + 2, 0]))
         nf = rng.choice([None, None, "0.00"])
         cd.add_series(name, vals, nf) if nf else cd.add_series(name, vals)
         series.append((name, vals))
@@ -121,6 +122,9 @@ def gen_xy_data(rng, bubble=False):
         pts = []
         for _ in range(rng.choice([0, 1, 2, 3, 7])):
             p = (rng.randint(-50, 50), rng.randint(-50, 50)) + ((rng.randint(1, 20),) if bubble else ())
+            if rng.random() < 0.15:   # a blank cell in the middle of a series
+                k = rng.randrange(len(p))
+                p = tuple(None if i == k else v for i, v in enumerate(p))
             se.add_data_point(*p)
             pts.append(p)
         series.append((name, pts))
